@@ -13,6 +13,11 @@ pub struct VErr;
 #[verifier::external_body] pub struct OtherV { x: usize }
 #[verifier::external_body] pub struct Str { s: String }
 pub uninterp spec fn bytes(s: &Str) -> Seq<u8>;
+impl Str {
+    #[verifier::external_body] pub fn to_owned(&self) -> (r: Str) ensures bytes(&r) == bytes(self) { unimplemented!() }
+    #[verifier::external_body] pub fn to_string(&self) -> (r: Str) ensures bytes(&r) == bytes(self) { unimplemented!() }
+    #[verifier::external_body] pub fn clone(&self) -> (r: Str) ensures bytes(&r) == bytes(self) { unimplemented!() }
+}
 pub broadcast axiom fn len_bound(s: &Str) ensures #[trigger] bytes(s).len() <= isize::MAX;
 pub enum Primitive { Str(Str), Int(i32), BigInt(i128), Other(OtherV) }
 // n copies of b
